@@ -20,8 +20,12 @@ OBJS_TSAN := $(addprefix $(B)/tsan/,$(addsuffix .o,$(NAMES)))
 ENG := /verif/engine
 ENGH := $(ENG)/vproxy.h $(wildcard $(ENG)/*.h)
 
-.PHONY: all rel asan tsan clean
+.PHONY: all everything rel asan tsan clean
 all: rel
+RC_TARGETS := $(patsubst /verif/rc/%.cpp,$(B)/rel/%,$(wildcard /verif/rc/rc_c*.cpp))
+FUZZ_TARGETS := $(patsubst /verif/fuzz/%.cpp,$(B)/asan/%,$(wildcard /verif/fuzz/fuzz_*.cpp))
+# everything the registered commands use (each check also builds what it needs, from the current tree)
+everything: rel asan tsan $(RC_TARGETS) $(FUZZ_TARGETS)
 rel: $(B)/rel/cvdrive
 asan: $(B)/asan/cvdrive
 tsan: $(B)/tsan/cvdrive
